@@ -240,7 +240,7 @@ PROPS = {
         "mc": [MC_HM, MC_W, MC_C, MC_SEQ, MC_MERGE],
         "replay": [GEN_INGEST, gen_h("hist", 2, depth=("3", "4")), gen_h("hist", 3), gen_pair("Weighted", "tree", "E0:W0,E6:W1,E7:W2,E8:W0,E9:W1,EM1:W0", maxlen=("3", "4")), gen_pair("Weighted", "seq", "EM1:W0,EM1:W2", maxlen=("4", "5")), gen_pair("Covariance", "tree", "E6:E7,E8:E9,E9:E6,EM1:EM1", maxlen=("3", "4")), gen_seq(ALLM, E09 + ",EM1"), gen_tree(ALLM, "E0,E4,E6,E7,E8,E9,EM1"), gen_hist(ALLM, "E6,E7,E8,E9,EM1")],
         "direct": [long_job("Mean,Variance,Skewness,Kurtosis,Moments4,M6,M10", "E0,E4,E6,E7,E8,E9,E10")],
-        "apalache": [{"module": "Ind_Variance", "skip": (True, False)}],
+        "apalache": [{"module": "Ind_Variance", "skip": (True, False)}, {"module": "Ind_EffLen", "skip": (True, False)}],
         "trace": [tr_h(3)],
         "rule": "all behaviours of C01/C02 replayed under embeddings without any conditioning bound (one-ulp spreads at 2^52, "
                 "denormals, 1e149, offsets 1e15 spreads); sign and range conditions on every observation",
@@ -262,9 +262,10 @@ PROPS = {
     },
     "C08": {
         "level_text": 'Weighted.tla (West update, weighted merge, embedded variance): WeightedIsDef, ErrorIsDef, ZeroWeightInvisible, EffectiveLenRange model-checked; every (value, weight) sequence / chunking / merge tree replayed on both weighted types incl. very unequal weights (1 : 4096 uniformly scaled, and 2^-19 : 2^19 inside one stream under the weight map WX, whose expected values come from the harness evaluation of the specification definitions, cross-checked against the specification on every generated line)',
-        "technique": 'TLC model checking of Weighted.tla + replay of every generated history',
+        "technique": 'TLC model checking of Weighted.tla + replay of every generated history; Apalache inductive invariant for West\'s update and the weighted merge (thorough)',
         "title": "weighted mean and its error equal the exact weighted statistics",
         "mc": [MC_W, MC_W1, MC_WW],
+        "apalache": [{"module": "Ind_Weighted", "skip": (True, False)}],
         "replay": [GEN_INGEST, gen_pair("Weighted", "seq", WE + ",E0:WX,E5:WX", maxlen=("4", "5")),
                    gen_pair("Weighted", "tree", "E0:W0,E3:W1,E5:W2,E0:WX", maxlen=("3", "4")),
                    gen_pair("Weighted", "hist", "E0:W0,E5:W2,E0:WX", depth=("3", "4")),
